@@ -105,3 +105,8 @@ def replay(key, failure):
     r = run_contract(C[key], inputs)
     r['inputs'] = {k: repr(v) for k, v in inputs.items()}
     return r
+
+
+@enum('key_to_ascending_key', 'all slices with start, stop in [-7,7] U {None}, step in [-4,4]\\{0} U {None}, size 0..6')
+def _e_k2a():
+    yield from _e_asc()
